@@ -85,6 +85,8 @@ func (in *Interp) runPath(entry *ssa.Function) (end pathEnd) {
 	in.steps = 0
 	in.depth = 0
 	in.symMapOrder = false
+	in.undefN = 0
+	in.evlog = in.evlog[:0]
 	in.mergeGuard = nil
 	in.noMerge = in.cfg != nil && in.cfg.NoMerge
 	in.journal = in.journal[:0]
@@ -267,7 +269,7 @@ func (ex *Explorer) exploreItem(in *Interp, item workItem) {
 		for len(in.dec) > base && len(in.dec[len(in.dec)-1].alts) == 0 {
 			in.dec = in.dec[:len(in.dec)-1]
 		}
-		if len(in.dec) == base {
+		if len(in.dec) <= base {
 			return
 		}
 		top := &in.dec[len(in.dec)-1]
